@@ -25,7 +25,8 @@ func isInitFunc(fn *ssa.Function) bool {
 // RunInits executes the initialisers of the module's packages and records the resulting global contents.
 func (en *Engine) RunInits() error {
 	en.initMode = true
-	defer func() { en.initMode = false }()
+	flatArrays = false
+	defer func() { en.initMode = false; flatArrays = true }()
 	for _, path := range pkgOrder {
 		p := en.pkgs[path]
 		if p == nil {
